@@ -829,3 +829,116 @@ class AcceptCondition:
             v = dict(fixed)
             v.update(zip(free, vals))
             yield v
+
+
+# --------------------------------------------------------------------------- must-happen-before, generically
+def must_precede(ctx, f: Func, is_event, sites: List[ast.AST], construct_of, why: str, body=None):
+    """every site is reached only after an event statement ran on the same path (must analysis)"""
+    def ev(n):
+        if isinstance(n, (ast.If, ast.For, ast.While, ast.With, ast.Try)):
+            return []
+        return ["E"] if is_event(n) else []
+    fl = Flow(f.node, resolver=Resolver(f.node), events=ev, body=body).run()
+    for i, s_ in enumerate(sites):
+        evs = fl.events_at(s_)
+        construct = construct_of(i, s_)
+        if evs is None:
+            continue
+        (ctx.ok(construct, f.loc(s_)) if "E" in evs else ctx.bad(construct, why, f.loc(s_)))
+
+
+# --------------------------------------------------------------------------- memoised functions are pure
+def memo_purity(ctx, modname: str, impure_markers: Tuple[str, ...], why: str):
+    """A method that memoises its result in a dict attribute of its object (`if k in self.C: return self.C[k]` ...
+    `self.C[k] = v`) must compute a function of the key: neither it nor anything it calls in the module may read the
+    state named by `impure_markers` (macro table, environment), which can change between two calls with the same key."""
+    from ..callgraph import CallGraph
+    repo = ctx.repo
+    cg = None
+    n = 0
+    for f in repo.funcs_in(modname):
+        stores = [s for s in own_nodes(repo, f) if isinstance(s, ast.Assign) and isinstance(s.targets[0], ast.Subscript)
+                  and isinstance(s.targets[0].value, ast.Attribute) and isinstance(s.targets[0].value.value, ast.Name) and s.targets[0].value.value.id == "self"]
+        for s in stores:
+            attr = s.targets[0].value.attr
+            reads = [r for r in own_nodes(repo, f) if isinstance(r, ast.Return) and r.value is not None and isinstance(r.value, ast.Subscript)
+                     and ast.unparse(r.value.value) == f"self.{attr}"]
+            if not reads:
+                continue
+            n += 1
+            cg = cg or CallGraph(repo)
+            reach = cg.reachable([f.qual], weak=True)
+            offenders = []
+            for q in sorted(reach):
+                if not q.startswith(modname + ":"):
+                    continue
+                src = ast.unparse(repo.funcs[q].node)
+                for mk in impure_markers:
+                    if mk in src:
+                        offenders.append(f"{repo.funcs[q].short} reads {mk}")
+            construct = f"{f.short}/memo self.{attr} caches a function of its key"
+            (ctx.bad(construct, f"{'; '.join(offenders[:3])}: {why}", f.loc(s)) if offenders else ctx.ok(construct, f.loc(s)))
+    return n
+
+
+# --------------------------------------------------------------------------- a loop-local is bound in the iteration that uses it
+def loop_locals_bound_per_iteration(ctx, qual: str, names: Optional[Iterable[str]] = None, why: str = ""):
+    """In the outermost `for` loops of the function, a local that is assigned inside the loop body only on some paths and read
+    later in the same iteration must have been assigned in *this* iteration on every path to the read - otherwise the read
+    sees the value of an earlier iteration (or of the initialisation before the loop)."""
+    repo = ctx.repo
+    f = repo.func(qual)
+    ctx.analysed(qual)
+    for lp in [n for n in own_nodes(repo, f) if isinstance(n, ast.For)]:
+        assigned = {}
+        for n in ast.walk(ast.Module(body=lp.body, type_ignores=[])):
+            if isinstance(n, ast.Assign):
+                for t in n.targets:
+                    if isinstance(t, ast.Name):
+                        assigned.setdefault(t.id, []).append(n)
+        aug = {n.target.id for n in ast.walk(lp) if isinstance(n, ast.AugAssign) and isinstance(n.target, ast.Name)}
+        tnames = {t.id for t in ast.walk(lp.target) if isinstance(t, ast.Name)}
+        for nm in sorted(assigned):
+            if names is not None and nm not in set(names):
+                continue
+            if nm in aug or nm in tnames:
+                continue
+            ids = {id(a) for a in assigned[nm]}
+
+            def ev(n, ids=ids):
+                if isinstance(n, (ast.If, ast.For, ast.While, ast.With, ast.Try)):
+                    return []
+                return ["A"] if id(n) in ids else []
+            fl = Flow(f.node, resolver=Resolver(f.node), events=ev, body=lp.body).run()
+            flm = Flow(f.node, resolver=Resolver(f.node), events=ev, body=lp.body, must=False).run()
+            loads = [x for x in ast.walk(ast.Module(body=lp.body, type_ignores=[])) if isinstance(x, ast.Name) and x.id == nm and isinstance(x.ctx, ast.Load)]
+            # stale: in this iteration the name *may* have been assigned on the way here but need not have been - a read that
+            # no assignment of the iteration can reach (top of the body) is a deliberate carry-over and not judged
+            stale = [x for x in loads if fl.events_at(x) is not None and "A" not in fl.events_at(x)
+                     and flm.events_at(x) is not None and "A" in flm.events_at(x)]
+            construct = f"{f.short}/loop over `{ast.unparse(lp.iter)[:30]}`: `{nm}` is bound in the iteration that reads it"
+            if stale:
+                ctx.bad(construct, f"`{nm}` is read at line {stale[0].lineno} on a path of the loop body that has not assigned it in this iteration: "
+                        f"the value of an earlier iteration is used. {why}", f.loc(stale[0]))
+            else:
+                ctx.ok(construct, f.loc(lp), nontrivial=False)
+
+
+# --------------------------------------------------------------------------- the integer validator
+def int_validator_shape(ctx, core="esp_kconfiglib.core"):
+    """_is_base_n() decides by int(s, n) alone: no str character-class method answers first (isdigit() & co. accept
+    superscripts, circled and non-ASCII digits that int() rejects - or the reverse - so a value the validator accepted makes
+    the evaluator's own int() raise)."""
+    repo = ctx.repo
+    f = repo.func(f"{core}:_is_base_n")
+    ctx.analysed(f.qual)
+    conv = [n for n in ast.walk(f.node) if isinstance(n, ast.Call) and isinstance(n.func, ast.Name) and n.func.id == "int" and len(n.args) == 2
+            and [ast.unparse(a) for a in n.args] == [a.arg for a in f.node.args.args][:2]]
+    cc = [n for n in ast.walk(f.node) if isinstance(n, ast.Attribute) and n.attr in _CHARCLASS]
+    construct = "_is_base_n/decided by int(s, n) alone"
+    if not conv:
+        ctx.bad(construct, "the text is no longer converted with int(s, n)", f.loc())
+    elif cc:
+        ctx.bad(construct, f"`.{cc[0].attr}()` answers before int(): its idea of a digit is not int()'s", f.loc(cc[0]))
+    else:
+        ctx.ok(construct, f.loc(conv[0]))
